@@ -19,7 +19,7 @@ def run(ctx):
                        "thresholds; non-trivial = >= 2 calls")
     binary, _ = build.build("hashmap", ["hashmap.cpp"])
     r = ctx.model("Hash", "MCHash", "MCHash_11.cfg", workers=16, xmx="16g")
-    sel = list(tlc.printed_tuples(r, "H", budget=6000 if ctx.quick else 150000))
+    sel = list(tlc.printed_tuples(r, "H", budget=6000 if ctx.quick else 40000))
     for h in sel:
         ctx.count_history(h)
     ctx.sample({"history": sel[len(sel) // 2]})
@@ -40,13 +40,14 @@ def run(ctx):
     ctx.validate("Hash", "HashTrace", "HashTrace.cfg", tp, "hash_map tours", keyfn=key)
     tp2 = os.path.join(ctx.work, "hash_rnd.trace")
     open(tp2, "w").close()
-    plans = [(48, 3, 500), (200, 1, 1500)] if ctx.quick else [(48, 30, 1500), (200, 10, 6000), (1000, 3, 12000)]
+    # (keys, histories, calls, observe every k-th call): every observation reads all keys three ways
+    plans = [(48, 3, 500, 1), (200, 1, 1500, 1)] if ctx.quick else [(48, 30, 1500, 1), (200, 10, 6000, 20), (1000, 3, 12000, 200)]
     for mode in range(6):
-        for nk, cnt, ln in plans:
+        for nk, cnt, ln, every in plans:
             part = tp2 + ".part"
             open(part + ".in", "w").close()
             core.run_histories(binary, ["--hash", str(mode), "--nkeys", str(nk), "--random", str(cnt), "--len", str(ln),
-                                        "--seed", str(ctx.seed + mode)], part + ".in", part, cnt)
+                                        "--checkevery", str(every), "--seed", str(ctx.seed + mode)], part + ".in", part, cnt)
             with open(tp2, "a") as out:
                 out.write(open(part).read())
             os.remove(part)
